@@ -69,6 +69,9 @@ pub fn family(f: usize) -> Vec<(&'static str, SGeom)> {
             ("diamond", SGeom::Poly(vec![(20, 0), (40, 20), (20, 40), (0, 20)])),
             ("octagon", SGeom::Poly(vec![(10, 0), (30, 0), (40, 10), (40, 30), (30, 40), (10, 40), (0, 30), (0, 10)])),
             ("45-degree chevron (bbox centre outside)", SGeom::Poly(vec![(0, 0), (20, 20), (40, 0), (40, 10), (20, 30), (0, 10)])),
+            // 2e8 units wide: the bounding-box centre misses the hypotenuse by a cross product of 1 (needs more than 53 bits)
+            ("large triangle whose bbox centre is just outside", SGeom::Poly(vec![(0, 0), (200000001, 200000003), (200000001, 0)])),
+            ("large triangle whose bbox centre is just inside", SGeom::Poly(vec![(0, 0), (200000001, 200000001), (200000001, 0)])),
         ],
         4 => vec![
             ("T", SGeom::Poly(vec![(20, 0), (40, 0), (40, 40), (60, 40), (60, 60), (0, 60), (0, 40), (20, 40)])),
@@ -135,9 +138,17 @@ fn gen_inst(c: &mut Chooser, idx: usize, target: &str, tags: &mut Vec<&'static s
     };
     let loc = c.cost_of(&LOCS, "inst-loc");
     let mut v = vec![SInst { name: format!("i{idx}"), cell: target.into(), loc, reflect, angle }];
-    if c.cost(2, "second-placement") == 1 {
-        tags.push("inst:second-placement");
-        v.push(SInst { name: format!("i{idx}b"), cell: target.into(), loc: (loc.0 + 777, loc.1 - 55), reflect: !reflect, angle: Some(180.0) });
+    // a second placement of the same cell: elsewhere, or on the very same origin in another orientation
+    match c.cost(3, "second-placement") {
+        1 => {
+            tags.push("inst:second-placement");
+            v.push(SInst { name: format!("i{idx}b"), cell: target.into(), loc: (loc.0 + 777, loc.1 - 55), reflect: !reflect, angle: Some(180.0) });
+        }
+        2 => {
+            tags.push("inst:second-placement");
+            v.push(SInst { name: format!("i{idx}b"), cell: target.into(), loc, reflect: !reflect, angle: Some(180.0) });
+        }
+        _ => {}
     }
     v
 }
@@ -177,7 +188,9 @@ fn gen_lib(c: &mut Chooser) -> Case {
     // options 21..=24: the same on each side, but the neighbour is one unit thick and starts right after the focus
     // shape's true extent (a path of odd width w reaches w/2 to each side, so the neighbour - and its label, which sits
     // on one of its two edges - starts (w+1)/2 from the centre line: next to the path, not on it)
-    let second = c.cost(25, "second-shape");
+    // option 25: a differently named 4x4 rectangle inside a (large enough) focus rectangle, listed after it and away
+    // from its label point: both keep their names (the label of the inner one also lies in the outer one)
+    let second = c.cost(26, "second-shape");
     tags.push(["second:none", "second:unnamed-same-layer-purpose", "second:named-same-layer-other-purpose", "second:named-other-layer-same-place", "second:named-listed-first", "second:neighbour-one-unit-away"][second.min(5)]);
     let far = SGeom::Rect((300, 300), (340, 330));
     let leaf = cells[n - 1].layout.as_mut().unwrap();
@@ -197,6 +210,21 @@ fn gen_lib(c: &mut Chooser) -> Case {
         4 => {
             leaf.shapes.push(SShape { layer: LP[lp].0, purpose: LP[lp].1, geom: far, net: Some("Other".into()) });
             leaf.shapes.push(focus);
+        }
+        25 => {
+            let inner = match &focus.geom {
+                // (an unnamed outer rectangle would take the inner one's name: outside the statement)
+                SGeom::Rect(a, b) if focus.net.is_some() && (a.0 - b.0).abs() >= 20 && (a.1 - b.1).abs() >= 12 && a.0.abs() < 1_000_000 => {
+                    let (x0, y0) = (a.0.min(b.0), a.1.min(b.1));
+                    Some(SGeom::Rect((x0 + 2, y0 + 2), (x0 + 6, y0 + 6)))
+                }
+                _ => None,
+            };
+            let (l, p) = (LP[lp].0, LP[lp].1);
+            leaf.shapes.push(focus);
+            if let Some(g) = inner {
+                leaf.shapes.push(SShape { layer: l, purpose: p, geom: g, net: Some("Inner".into()) });
+            }
         }
         k if k >= 5 => {
             let thin = k >= 21;
@@ -537,7 +565,7 @@ impl CaseDriver for C07Lib {
     fn describe(&self, tier: Tier) -> Describe {
         Describe {
             rule: format!(
-                "raw libraries of 1..3 cells (chain c0 -> c1 -> c2) listed in every order; every instance in all 8 orientations (free); the last cell holds a focus shape: family {FAMILIES:?} (free) x (layer, purpose) in 2 layers x 2 purposes plus obstruction, outline and label purposes and layers numbered 1000 and 32767 (free) x net absent / lower-case / Mixed-Case (free); costed (deviation bound {}): shape variant within the family (both corner orders and mixed corners of rectangles, start vertex and direction of polygons, 1..3 segment paths, widths 2/3/4), units Nano/Micro/Angstrom/Pico, instance offsets {LOCS:?}, angle None vs Some(0), a second placement, the top also placing the leaf, named non-leaf shape, a second shape (unnamed same layer+purpose / named same layer other purpose / named other layer same place / named listed first / a named 2x2 neighbour one unit outside the shape's flush bounding box on each side, level with its first or last point, listed before or after; or a neighbour one unit thick starting right after the true extent of the shape, a path then given an odd width), unit-wide rectangles at negative coordinates, width-1 / backwards-drawn / ring / out-and-back paths (variants of the families), a blank cell (unreferenced / instantiated), two cells whose names differ only in letter case. Non-trivial = has an instance or a net.",
+                "raw libraries of 1..3 cells (chain c0 -> c1 -> c2) listed in every order; every instance in all 8 orientations (free); the last cell holds a focus shape: family {FAMILIES:?} (free) x (layer, purpose) in 2 layers x 2 purposes plus obstruction, outline and label purposes and layers numbered 1000 and 32767 (free) x net absent / lower-case / Mixed-Case (free); costed (deviation bound {}): shape variant within the family (both corner orders and mixed corners of rectangles, start vertex and direction of polygons, 1..3 segment paths, widths 2/3/4), units Nano/Micro/Angstrom/Pico, instance offsets {LOCS:?}, angle None vs Some(0), a second placement (elsewhere / on the same origin in another orientation), the top also placing the leaf, named non-leaf shape, a second shape (unnamed same layer+purpose / named same layer other purpose / named other layer same place / named listed first / a named 2x2 neighbour one unit outside the shape's flush bounding box on each side, level with its first or last point, listed before or after; or a neighbour one unit thick starting right after the true extent of the shape, a path then given an odd width; or a differently named small rectangle inside a focus rectangle, listed after it), unit-wide rectangles at negative coordinates, width-1 / backwards-drawn / ring / out-and-back paths (variants of the families), a blank cell (unreferenced / instantiated), two cells whose names differ only in letter case. Non-trivial = has an instance or a net.",
                 self.bound(tier)
             ),
             assumptions: assumptions(),
@@ -584,7 +612,7 @@ fn assumptions() -> Vec<String> {
     vec![
         "a rectangle and the 4-vertex axis-parallel polygon with the same corners are the same shape (but a rectangle that comes back as a rectangle keeps its two corner points in the order given); polygons up to rotation/direction of the vertex cycle; paths as exact point list + width".into(),
         "instances compared as a multiset of (cell name, location, reflection, angle in whole degrees with None = 0); instance names are not part of the statement".into(),
-        "all shapes of one cell that share a layer number are pairwise bbox-disjoint, so the label of one shape cannot name another".into(),
+        "all shapes of one cell that share a layer number are pairwise bbox-disjoint, so the label of one shape cannot name another - except for one named rectangle inside a named focus rectangle listed before it, where the first label to reach a shape is the one that names it".into(),
         "a label in the corner/cap zone of a path is not judged (the statement fixes only 'inside the shape')".into(),
         "to_gds returning Err for an in-alphabet library is a violation (nothing was yielded)".into(),
     ]
